@@ -1721,6 +1721,20 @@ func (x *exec) applyCall(st *State, fr *frame, call *ast.CallExpr, fn *Val, recv
 	}
 	if f != nil {
 		f = f.Origin()
+		// an interface method called on a value whose concrete type is known on
+		// this path (a receiver handed to a generic driver as `m medium`) is the
+		// concrete method
+		if r := f.Type().(*types.Signature).Recv(); r != nil && recv != nil && recv.T != nil {
+			if _, isIface := r.Type().Underlying().(*types.Interface); isIface {
+				if _, dynIface := recv.T.Underlying().(*types.Interface); !dynIface {
+					if obj, _, _ := types.LookupFieldOrMethod(recv.T, true, f.Pkg(), f.Name()); obj != nil {
+						if m, ok := obj.(*types.Func); ok {
+							f = m.Origin()
+						}
+					}
+				}
+			}
+		}
 		if x.inlinable(st, fr, f, call) {
 			decl := x.c.FnOf(f)
 			g := cfgq.Of(x.c.Program, decl)
@@ -1747,9 +1761,6 @@ func (x *exec) inlinable(st *State, fr *frame, f *types.Func, call *ast.CallExpr
 		return false
 	}
 	sig := f.Type().(*types.Signature)
-	if sig.Variadic() || call.Ellipsis.IsValid() {
-		return false
-	}
 	if r := sig.Recv(); r != nil {
 		if _, isIface := r.Type().Underlying().(*types.Interface); isIface {
 			return false
@@ -1782,6 +1793,19 @@ func (x *exec) bindParams(st *State, ft *ast.FuncType, recvL *ast.FieldList, rec
 			continue
 		}
 		for _, nm := range fl.Names {
+			if _, variadic := fl.Type.(*ast.Ellipsis); variadic && !call.Ellipsis.IsValid() {
+				// f(a, rest...) called with spelled-out arguments: the parameter is the list of them
+				if o := x.info.Defs[nm]; o != nil {
+					var rest []*Val
+					if i < len(args) {
+						rest = args[i:]
+					}
+					st.nobj++
+					st.env[o] = &Val{K: VList, Args: rest, T: o.Type(), key: fmt.Sprintf("varargs@%d/%d", call.Pos(), st.nobj)}
+				}
+				i = len(args)
+				continue
+			}
 			if o := x.info.Defs[nm]; o != nil {
 				if i < len(args) && args[i] != nil {
 					st.env[o] = args[i]
@@ -1880,6 +1904,13 @@ func (x *exec) opaque(st *State, fr *frame, call *ast.CallExpr, f *types.Func, f
 		st.record(ev)
 		x.finish(st, ExitStop, nil, call.Pos())
 		return
+	}
+	// a function of the analysed package that has a body but was not followed
+	// (recursion, nesting bound): what it does is invisible, verdicts would be guesses
+	if f != nil && f.Pkg() == x.pkg && (x.cfg.Opaque == nil || !x.cfg.Opaque(f)) {
+		if d := x.c.FnOf(f); d != nil && d.Decl.Body != nil && !cfgq.NR(x.c.Program).Has(f) {
+			st.taintf("helper %s not followed at %s", f.Name(), x.pos(call.Pos()))
+		}
 	}
 	// a verified nil-preserving error wrapper is a transparent term, not an event
 	if f != nil && len(args) == 1 && args[0] != nil && x.nilPreserving(f) {
